@@ -63,6 +63,10 @@ def gen_case(rng):
     p['band'] = -1
     # budget of the local iterative solver: fewer inner iterations per cycle with more restarts (same total work or more)
     p['li'], p['resets'] = rng.choice([(40, 2), (40, 2), (40, 2), (12, 8), (20, 4)])
+    if p['ls'] == 2:
+        # BiCGSTAB ignores `resets`: fewer inner iterations would simply be a weaker local solver, which the property
+        # does not promise anything about (a thorough run found one such case at 16.8*eps) - keep the default budget
+        p['li'], p['resets'] = 40, 2
     if cls == 'kronsum':
         p['terms'] = rng.randint(1, 4)
     if cls == 'ipe':
